@@ -281,6 +281,40 @@ def assemble1d_harness(an, kvn, p, breaks, mults, du, dv, nqp, weight, exact):
     return run
 
 
+def sequence_harness(an, kvn, p, breaks, mults, du, dv):
+    """call history on one knot vector: weighted, the same weighted call again, then unweighted (and a second weight): every result
+    must equal ITS OWN definition -- what one call did to the quadrature rule (weights scaled in place, a memoised rule, ...) must not
+    leak into the next.  The same Gauss stub state is kept over the whole sequence (as numpy returns the same rule every time)."""
+    def run(c):
+        GAUSS.reset(c)
+        kv, kvq = kv_from(kvn, p, breaks, mults)
+        n = kv.numdofs
+        a0, a1, b0, b1 = S('wa'), S('wb'), S('wc'), S('wd')
+        q = int(math.ceil((2 * p - du - dv + 1) / 2.0))
+
+        def defn(co):
+            x, w = GAUSS.leggauss(q)
+            terms = np.empty((n, n), dtype=object); terms[...] = 0
+            for a, b in zip(breaks, breaks[1:]):
+                m = (F(a) + F(b)) / 2; h = (F(b) - F(a)) / 2
+                for k in range(q):
+                    u = z3.RealVal(m) + z3.RealVal(h) * x[k].t
+                    orc = SpanOracle(kvq, p, u, a, b)
+                    wk = z3.RealVal(h) * w[k].t
+                    if co is not None: wk = wk * (co[0].t + co[1].t * u)
+                    for i in range(n):
+                        for j in range(n):
+                            terms[i, j] = terms[i, j] + Sym(wk * orc.dN(i, dv) * orc.dN(j, du))
+            return terms
+        seq = [('weighted', (a0, a1)), ('same weighted call again', (a0, a1)), ('unweighted after weighted', None), ('other weight', (b0, b1)), ('unweighted again', None)]
+        for tag, co in seq:
+            wf = None if co is None else (lambda x, co=co: co[0] + co[1] * x)
+            M = an['bsp_mixed_deriv_biform_1d'](kv, du, dv, weightfunc=wf).toarray()
+            c.check(sx.eq_arrays(M, defn(co)), 'call sequence on one knot vector, %s: entry (i,j) = sum_q w_q [weight] N_i^(dv) N_j^(du)' % tag)
+        c.witness('assemble1d sequence')
+    return run
+
+
 def asym_harness(an, kvn, p1, p2, breaks, mults1, mults2, du, dv, quad, exact):
     """bsp_mixed_deriv_biform_1d_asym: two spaces on a common mesh; quad = None (mesh of the first space) or 'fine' (bisected mesh)"""
     def run(c):
@@ -328,8 +362,9 @@ def kron_harness(an, dim):
         class KV:
             def __init__(self, k): self.k = k
         kvs = tuple(KV(k) for k in range(dim))
-        an['bsp_mass_1d'] = lambda kv, weightfunc=None: SpMat(Ms[kv.k], 'csr')
-        an['bsp_stiffness_1d'] = lambda kv, weightfunc=None: SpMat(Ks[kv.k], 'csr')
+        g = an['bsp_mass_2d'].__globals__          # the namespace the encoded functions resolve their callees in
+        g['bsp_mass_1d'] = lambda kv, weightfunc=None: SpMat(Ms[kv.k], 'csr')
+        g['bsp_stiffness_1d'] = lambda kv, weightfunc=None: SpMat(Ks[kv.k], 'csr')
         def kr(*A):
             r = A[0]
             for B in A[1:]: r = np.kron(r, B)
@@ -481,6 +516,15 @@ if kind == 'assemble1d':
                 monomial_test(M, kv, kv, du, dv, 'bsp_mixed_deriv_biform_1d(p=%d,du=%d,dv=%d)' % (p, du, dv))
         M = assemble.bsp_mass_1d(kv); K = assemble.bsp_stiffness_1d(kv)
         if abs(M.sum() - (breaks[-1] - breaks[0])) > 1e-12: bad.append('mass sum')
+        # call history: weighted, weighted again, then plain
+        wf = lambda x: 1.0 + 2.0 * x
+        lo, hi = breaks[0], breaks[-1]; iw = (hi - lo) + (hi * hi - lo * lo)
+        for rep in range(2):
+            Mw = assemble.bsp_mass_1d(kv, weightfunc=wf)
+            if abs(Mw.sum() - iw) > 1e-10: bad.append('sequence: weighted mass sum (call %d)' % (rep + 1)); break
+        if abs(assemble.bsp_mass_1d(kv) - M).max() > 1e-12: bad.append('sequence: plain mass matrix differs after weighted assembly')
+        Kw = assemble.bsp_stiffness_1d(kv, weightfunc=wf)
+        if abs(assemble.bsp_stiffness_1d(kv) - K).max() > 1e-12: bad.append('sequence: plain stiffness matrix differs after weighted assembly')
         if abs(K @ np.ones(kv.numdofs)).max() > 1e-10: bad.append('stiffness kernel')
 elif kind == 'asym':
     for (p1, p2, breaks, m1, m2) in ((2, 3, [0, 0.5, 1], [1], [2]), (1, 3, [0, 0.25, 0.5, 2], [1, 1], [1, 2]), (3, 1, [0, 1, 2], [2], [1])):
@@ -515,21 +559,21 @@ elif kind == 'load':
     if abs(v - (1.5 + 1.0 / 3)) > 1e-12: bad.append('integrate (parametric polynomial)')
     ip = assemble.inner_products(kvs, g)
     if abs(ip.sum() - (1.5 + 1.0 / 3)) > 1e-12: bad.append('inner_products: sum over the partition of unity')
-    A = np.array([[2.0, 1.0], [0.5, 3.0]])
-    aff = geometry.unit_square().apply_matrix(A)
-    if abs(assemble.integrate(kvs, lambda x, y: 1.0 + 0 * x, geo=aff) - abs(np.linalg.det(A))) > 1e-12: bad.append('integrate: area of an affine image')
-    vphys = assemble.integrate(kvs, lambda x, y: x, f_physical=True, geo=aff)      # int_{A(Q)} x = |det A| * mean of x over image = |det| * (A @ (.5,.5))[0]
-    if abs(vphys - abs(np.linalg.det(A)) * (A @ np.array([0.5, 0.5]))[0]) > 1e-12: bad.append('integrate: physical coordinates order')
-    try:
-        vv = np.asarray(assemble.integrate(kvs, lambda x, y: (1.0 + 0 * x, 2.0 + 0 * y), geo=aff))
-        if vv.shape != (2,) or not np.allclose(vv, abs(np.linalg.det(A)) * np.array([1.0, 2.0])): bad.append('integrate: vector-valued data with geometry: wrong result')
-    except Exception as e:
-        bad.append('integrate: vector-valued data with geometry: %s' % type(e).__name__)
-    try:
-        iv = assemble.inner_products(kvs, lambda x, y: (1.0 + 0 * x, 2.0 + 0 * y), geo=aff)
-        if not np.allclose(iv.sum(axis=(0, 1)), abs(np.linalg.det(A)) * np.array([1.0, 2.0])): bad.append('inner_products: vector-valued data with geometry')
-    except Exception as e:
-        bad.append('inner_products: vector-valued data with geometry: %s' % type(e).__name__)
+    for A in (np.array([[2.0, 1.0], [0.5, 3.0]]), np.array([[1.0, 2.0], [3.0, 0.5]])):       # second one: orientation reversing (det < 0)
+        aff = geometry.unit_square().apply_matrix(A)
+        if abs(assemble.integrate(kvs, lambda x, y: 1.0 + 0 * x, geo=aff) - abs(np.linalg.det(A))) > 1e-12: bad.append('integrate: area of an affine image')
+        vphys = assemble.integrate(kvs, lambda x, y: x, f_physical=True, geo=aff)      # int_{A(Q)} x = |det A| * mean of x over image = |det| * (A @ (.5,.5))[0]
+        if abs(vphys - abs(np.linalg.det(A)) * (A @ np.array([0.5, 0.5]))[0]) > 1e-12: bad.append('integrate: physical coordinates order')
+        try:
+            vv = np.asarray(assemble.integrate(kvs, lambda x, y: (1.0 + 0 * x, 2.0 + 0 * y), geo=aff))
+            if vv.shape != (2,) or not np.allclose(vv, abs(np.linalg.det(A)) * np.array([1.0, 2.0])): bad.append('integrate: vector-valued data with geometry: wrong result')
+        except Exception as e:
+            bad.append('integrate: vector-valued data with geometry: %s' % type(e).__name__)
+        try:
+            iv = assemble.inner_products(kvs, lambda x, y: (1.0 + 0 * x, 2.0 + 0 * y), geo=aff)
+            if not np.allclose(iv.sum(axis=(0, 1)), abs(np.linalg.det(A)) * np.array([1.0, 2.0])): bad.append('inner_products: vector-valued data with geometry')
+        except Exception as e:
+            bad.append('inner_products: vector-valued data with geometry: %s' % type(e).__name__)
 elif kind == 'normal':
     for dim in (2, 3):
         J = rng.rand(dim, dim) + 2 * np.eye(dim)
@@ -562,8 +606,19 @@ def main():
     run.out_of_scope += ['low-rank fast assembler (fastasm.cc, C++; no IR->SMT translator in reach): not applicable', 'positive (semi)definiteness', 'compiled assemblers with geometry (C01)',
                          'weight functions are checked against the quadrature sum only (the default node count is not exact for them by construction)', 'rounding']
 
+    def fresh(h):
+        """every explored path starts from freshly built code objects (0.07 s): module-level state a change may introduce (memo tables,
+        arrays scaled in place) then lives exactly as long as it would in one user session made of the calls of this one harness, instead of
+        accumulating over all harnesses and paths of this process"""
+        def run_(c):
+            a, k, t, q, b = load_code()
+            for old, new in ((an, a), (kvn, k), (atc, t), (qn, q)):
+                old.clear(); old.update(new)
+            return h(c)
+        return run_
+
     def do(group, h, kind, bound, to=120000):
-        st = sx.explore(h, timeout_ms=to, stop_at_first=False, sat_search=True, clear_div=True, export_every=29 if thorough else 0)
+        st = sx.explore(fresh(h), timeout_ms=to, stop_at_first=False, sat_search=True, clear_div=True, export_every=29 if thorough else 0)
         run.absorb(st, group, bound=bound, sample={'obligation': group, **bound})
         if thorough and st.smt2: run.cross_check(st.smt2[:1], timeout_s=60)
         if st.cex:
@@ -585,6 +640,9 @@ def main():
                        {'p': p, 'breaks': [str(b) for b in breaks], 'mults': mults, 'du': du, 'dv': dv, 'nqp': 'default'})
             do('assemble-1d', assemble1d_harness(an, kvn, p, breaks, mults, 0, 0, p + 2, True, False), 'assemble1d',
                {'p': p, 'breaks': [str(b) for b in breaks], 'mults': mults, 'du': 0, 'dv': 0, 'nqp': p + 2, 'weight': 'a + b x'})
+        for p, breaks, mults, du, dv in [(1, [0, F(1, 2), 1], [1], 0, 0), (2, [0, F(1, 4), 1], [1], 1, 1)] + ([(2, [0, 1, 3], [2], 0, 1), (3, [0, 1], [], 0, 0)] if thorough else []):
+            do('assemble-1d', sequence_harness(an, kvn, p, breaks, mults, du, dv), 'assemble1d',
+               {'p': p, 'breaks': [str(b) for b in breaks], 'mults': mults, 'du': du, 'dv': dv, 'sequence': 'weighted, weighted, plain, other weight, plain'})
     if run.want('asym'):
         acfg = [(1, 2, [0, F(1, 2), 1], [1], [1], None, True), (2, 1, [0, 1, 3], [1], [1], 'fine', True), (2, 3, [0, F(1, 2), 1], [1], [2], None, True), (1, 3, [0, 1], [], [], None, True)]
         if thorough: acfg += [(2, 2, [0, F(1, 4), 1], [2], [1], 'fine', True), (3, 1, [0, 1, 2], [2], [1], None, True), (1, 3, [0, 1, 2, 3], [1, 1], [1, 3], None, True)]
@@ -596,8 +654,7 @@ def main():
     if run.want('kron'):
         for dim in (2, 3):
             do('kronecker-paths', kron_harness(an, dim), 'kron', {'dim': dim})
-            an2, _, _, _, _ = load_code()       # the harness rebinds bsp_mass_1d in its namespace: reload for the next user
-            an = an2
+
     if run.want('load'):
         an, kvn, atc, qn, bsp = load_code()
         lcfg = [(2, False, False, False), (2, True, False, False), (2, True, True, False), (2, True, False, True), (3, True, False, False)]
@@ -624,6 +681,9 @@ def main():
                lambda a, k, t: asym_harness(a, k, 1, 2, [0, F(1, 2), 1], [1], [2], 0, 0, None, True))
         canary('stiffness 3D: wrong Kronecker factor', 'pyiga/assemble.py', 'K12 = k(MK[1][1], MK[2][0]) + k(MK[1][0], MK[2][1])', 'K12 = k(MK[1][1], MK[2][0]) + k(MK[1][1], MK[2][1])', lambda a, k, t: kron_harness(a, 3))
         canary('gauss_rule: weights not scaled by the half length', 'pyiga/quadrature.py', 'weights = np.outer(h,w)', 'weights = np.outer(2*h,w)', lambda a, k, t: assemble1d_harness(a, k, 1, [0, F(1, 2), 1], [1], 0, 0, None, False, True))
+        canary('quadrature rule memoised and scaled in place by a weighted call', 'pyiga/quadrature.py', 'def make_iterated_quadrature(intervals, nqp):\n    return gauss_rule(nqp, intervals[:-1], intervals[1:])',
+               '_MEMO = {}\ndef make_iterated_quadrature(intervals, nqp):\n    key = (tuple(intervals), nqp)\n    if key not in _MEMO: _MEMO[key] = gauss_rule(nqp, intervals[:-1], intervals[1:])\n    return _MEMO[key]',
+               lambda a, k, t: sequence_harness(a, k, 1, [0, F(1, 2), 1], [1], 0, 0))
         canary('inverse 2x2: sign of an off-diagonal entry', 'pyiga/assemble_tools_cy.pyx', 'Y[i,j, 0,1] = -b / det', 'Y[i,j, 0,1] = b / det', lambda a, k, t: closed_form_harness(t, 2))
         canary('integrate: forgets |det J|', 'pyiga/assemble.py', '        fvals *= geo_det\n    # sum over all coordinate axes', '    # sum over all coordinate axes', lambda a, k, t: load_harness(a, k, 2, True, False, False))
         canary('boundary matrix: upper side not flipped', 'pyiga/assemble.py', 'if side != 0:           # for the upper limit', 'if side == 7:           # for the upper limit', lambda a, k, t: normal_harness(a, 2))
